@@ -18,6 +18,13 @@
 (*   Eq       kind a b             the pixels of two images produced by    *)
 (*                                 routes the property declares equivalent *)
 (*   Shift    w h dx dy a b        b is claimed to be a shifted by (dx,dy) *)
+(* Walk / LineInit are judged on two levels.  (A) mandatory: the abscissa x *)
+(* of the edge after every call is the specification's (the only thing of  *)
+(* an edge walk the property constrains: where the line crosses the row,   *)
+(* rounded by the sample-grid rule).  (B) tracked only: the remaining      *)
+(* fields of pixman_edge_t (error term, pre-reduced steps) equal the       *)
+(* Bresenham-style representation of Trap.tla; the first departure is      *)
+(* reported as a policy note and validation continues with (A).            *)
 (* Every event must be explained by the specification (Trap.tla with no    *)
 (* quirk).  If EnabledDeviations names quirks of the unrepaired tree       *)
 (* (known findings), an event that the specification does not explain may  *)
@@ -27,7 +34,8 @@ EXTENDS Trap, TraceIO, FiniteSets
 
 CONSTANT EnabledDeviations        \* subset of {"stale", "exact0", "backstep", "wrap"}
 
-VARIABLE l
+VARIABLES l,        \* next trace line
+          noted     \* a departure of the walker's internal representation has been reported (level B)
 
 FromW(p) == (IF p[1] >= 32768 THEN p[1] - 65536 ELSE p[1]) * 65536 + p[2]
 
@@ -51,7 +59,7 @@ Explained(P(_)) ==
 EdSeq(ed) == <<ed.x, ed.e, ed.stepx, ed.signdx, ed.dy, ed.dx, ed.stepx_small, ed.stepx_big, ed.dx_small, ed.dx_big>>
 
 TReset == /\ l <= TraceLen /\ TraceLog[l].e = "Reset"
-          /\ l' = l + 1
+          /\ l' = l + 1 /\ UNCHANGED noted
 
 TSampleY ==
     /\ l <= TraceLen /\ TraceLog[l].e = "SampleY"
@@ -61,7 +69,7 @@ TSampleY ==
                       /\ FromW(ev.ceil[i]) = SampleCeilY(y, ev.n)
                       /\ FromW(ev.floor[i]) = SampleFloorYQ(y, ev.n, q.wrap)
        IN  Explained(P)
-    /\ l' = l + 1
+    /\ l' = l + 1 /\ UNCHANGED noted
 
 (* the walker states the specification predicts for an init followed by steps *)
 RECURSIVE WalkStates(_, _, _, _)
@@ -69,21 +77,31 @@ WalkStates(ed, steps, k, q) ==
     IF k > Len(steps) THEN <<>> ELSE
     LET nx == EdgeStepQ(ed, steps[k], q) IN <<EdSeq(nx)>> \o WalkStates(nx, steps, k + 1, q)
 
+Xs(eds) == [i \in DOMAIN eds |-> eds[i][1]]
+(* level (B): note the first departure of the internal representation, never reject *)
+Track(same) ==
+    /\ noted' = (noted \/ ~same)
+    /\ (~noted /\ ~same) => PrintT(<<"VF:policy", "edge-state", l>>)
+
 TWalk ==
     /\ l <= TraceLen /\ TraceLog[l].e = "Walk"
     /\ LET ev == TraceLog[l]
            a == ev.init
-           P(q) == LET e0 == EdgeInitQ(ev.n, a[1], a[2], a[3], a[4], a[5], q) IN
-                   ev.eds = <<EdSeq(e0)>> \o WalkStates(e0, ev.steps, 1, q)
-       IN  Explained(P)
+           Model(q) == LET e0 == EdgeInitQ(ev.n, a[1], a[2], a[3], a[4], a[5], q) IN
+                       <<EdSeq(e0)>> \o WalkStates(e0, ev.steps, 1, q)
+           PA(q) == Xs(ev.eds) = Xs(Model(q))                   \* (A) x after the init and after every step
+       IN  /\ Explained(PA)
+           /\ Track(ev.eds = Model(NoQuirks))                   \* (B)
     /\ l' = l + 1
 
 TLineInit ==
     /\ l <= TraceLen /\ TraceLog[l].e = "LineInit"
     /\ LET ev == TraceLog[l]
            a == ev.args
-           P(q) == ev.ed = EdSeq(LineEdgeInitQ(ev.n, a[1], <<a[2], a[3], a[4], a[5]>>, a[6], a[7], q))
-       IN  Explained(P)
+           Model(q) == EdSeq(LineEdgeInitQ(ev.n, a[1], <<a[2], a[3], a[4], a[5]>>, a[6], a[7], q))
+           PA(q) == ev.ed[1] = Model(q)[1]
+       IN  /\ Explained(PA)
+           /\ Track(ev.ed = Model(NoQuirks))
     /\ l' = l + 1
 
 TRast ==
@@ -97,12 +115,12 @@ TRast ==
        IN  /\ ev.outside = 0                 \* nothing outside the w x h pixels was written
            /\ Len(ev.before) = ev.w * ev.h /\ Len(ev.after) = ev.w * ev.h
            /\ Explained(P)
-    /\ l' = l + 1
+    /\ l' = l + 1 /\ UNCHANGED noted
 
 TComp ==
     /\ l <= TraceLen /\ TraceLog[l].e = "Comp"
     /\ TraceLog[l].outside = 0
-    /\ l' = l + 1
+    /\ l' = l + 1 /\ UNCHANGED noted
 
 (* Two images obtained through routes the property declares equivalent.  Kinds hsplit, vsplit,  *)
 (* stagger (abutting parts against their union) are what the walker quirks break: with such a   *)
@@ -117,7 +135,7 @@ TEq ==
        ELSE /\ ev.kind \in TilingKinds
             /\ \E f \in {"stale", "exact0", "backstep"} \cap EnabledDeviations : TRUE
             /\ \A f \in {"stale", "exact0", "backstep"} \cap EnabledDeviations : Deviation(DevName(f), l)
-    /\ l' = l + 1
+    /\ l' = l + 1 /\ UNCHANGED noted
 
 TShift ==
     /\ l <= TraceLen /\ TraceLog[l].e = "Shift"
@@ -125,9 +143,9 @@ TShift ==
        \A q \in 0..(ev.h - 1) : \A p \in 0..(ev.w - 1) :
           (p + ev.dx \in 0..(ev.w - 1) /\ q + ev.dy \in 0..(ev.h - 1)) =>
              ev.b[(q + ev.dy) * ev.w + p + ev.dx + 1] = ev.a[q * ev.w + p + 1]
-    /\ l' = l + 1
+    /\ l' = l + 1 /\ UNCHANGED noted
 
-TInit == l = 1
+TInit == l = 1 /\ noted = FALSE
 TNext == TReset \/ TSampleY \/ TWalk \/ TLineInit \/ TRast \/ TComp \/ TEq \/ TShift
-TSpec == TInit /\ [][TNext]_l
+TSpec == TInit /\ [][TNext]_<<l, noted>>
 =============================================================================
